@@ -27,7 +27,13 @@ impl Emitter for FilesEmitter {
         // Write text directly over original file if there is a diff.
         let filename = ensure_real_path(filename);
         if original_text != formatted_text {
+            #[cfg(feature = "verif-hooks")]
+            crate::verif_hooks::crash_point("files:0");
+            #[cfg(feature = "verif-hooks")]
+            crate::verif_hooks::fail_point("files:0")?;
             fs::write(filename, formatted_text)?;
+            #[cfg(feature = "verif-hooks")]
+            crate::verif_hooks::crash_point("files:1");
             if self.print_misformatted_file_names {
                 writeln!(output, "{}", filename.display())?;
             }
